@@ -2,109 +2,4 @@
 
 package ws
 
-// C02_cipher_pointwise: Cipher is the RFC 6455 §5.3 XOR for any payload, key and
-// non-negative offset; no panic.
-func C02_cipher_pointwise() {
-	maxN := 40
-	if vTier() > 0 {
-		maxN = 130
-	}
-	n := vChoose("n", maxN+1)
-	p := vBytes("p", n)
-	orig := make([]byte, n)
-	copy(orig, p)
-	key := [4]byte{vU8("k0"), vU8("k1"), vU8("k2"), vU8("k3")}
-	off := vInt("offset")
-	vAssume(off >= 0)
-	Cipher(p, key, off)
-	om := byte(uint64(off) % 4) // overflow-free reference index
-	ok := true
-	for i := 0; i < n; i++ {
-		ki := (om + byte(i%4)) % 4
-		ok = vAnd(ok, p[i] == orig[i]^key[ki])
-	}
-	vAssert(ok, "cipher.xor")
-	vTraceBytes("out", p)
-}
-
 func vKey(i int, off uint64) int { return int((off%4 + uint64(i%4)) % 4) }
-
-// C02_chunks: processing a payload as two consecutive chunks with a running offset
-// equals one call; applying Cipher twice restores the input.
-func C02_chunks() {
-	maxN := 20
-	if vTier() > 0 {
-		maxN = 40
-	}
-	n := vChoose("n", maxN+1)
-	k := vChoose("k", n+1)
-	p := vBytes("p", n)
-	a := append([]byte{}, p...)
-	b := append([]byte{}, p...)
-	key := [4]byte{vU8("k0"), vU8("k1"), vU8("k2"), vU8("k3")}
-	off := vInt("offset")
-	vAssume(off >= 0)
-	vAssume(off <= 1<<62) // off+k must not overflow: a running stream offset
-	Cipher(a, key, off)
-	Cipher(b[:k], key, off)
-	Cipher(b[k:], key, off+k)
-	vAssert(vEqBytes(a, b), "chunks.same")
-	Cipher(a, key, off)
-	vAssert(vEqBytes(a, p), "chunks.involution")
-	vTraceBytes("b", b)
-}
-
-// C02_frame_helpers: Mask/Unmask helpers; copying variants leave the caller's bytes intact.
-func C02_frame_helpers() {
-	n := vChoose("n", 10)
-	p := vBytes("p", n)
-	orig := append([]byte{}, p...)
-	key := [4]byte{vU8("k0"), vU8("k1"), vU8("k2"), vU8("k3")}
-	var h Header
-	h.Fin = vBool("fin")
-	h.OpCode = OpCode(vU8("op"))
-	h.Length = int64(n)
-	h.Masked = vBool("premasked")
-	h.Mask = [4]byte{vU8("o0"), vU8("o1"), vU8("o2"), vU8("o3")}
-	f := Frame{Header: h, Payload: p}
-	xor := func(in []byte, k [4]byte) []byte {
-		out := make([]byte, len(in))
-		for i := range in {
-			out[i] = in[i] ^ k[i%4]
-		}
-		return out
-	}
-	switch vChoose("fn", 6) {
-	case 0: // MaskFrameWith copies
-		g := MaskFrameWith(f, key)
-		vAssert(vEqBytes(p, orig), "helpers.maskwith.caller_intact")
-		vAssert(vEqBytes(g.Payload, xor(orig, key)), "helpers.maskwith.xor")
-		vAssert(vAnd(g.Header.Masked, g.Header.Mask == key), "helpers.maskwith.header")
-		vAssert(!vSameMem(g.Payload, p), "helpers.maskwith.noalias")
-		vAssert(vAnd(g.Header.Fin == h.Fin, vAnd(g.Header.OpCode == h.OpCode, g.Header.Length == h.Length)), "helpers.maskwith.rest")
-	case 1: // MaskFrame copies, random key reported in header
-		g := MaskFrame(f)
-		vAssert(vEqBytes(p, orig), "helpers.mask.caller_intact")
-		vAssert(g.Header.Masked, "helpers.mask.header")
-		vAssert(vEqBytes(g.Payload, xor(orig, g.Header.Mask)), "helpers.mask.xor")
-	case 2: // MaskFrameInPlaceWith aliases
-		g := MaskFrameInPlaceWith(f, key)
-		vAssert(vEqBytes(p, xor(orig, key)), "helpers.inplacewith.xor")
-		vAssert(vOr(n == 0, vSameMem(g.Payload, p)), "helpers.inplacewith.alias")
-		vAssert(vAnd(g.Header.Masked, g.Header.Mask == key), "helpers.inplacewith.header")
-	case 3: // MaskFrameInPlace
-		g := MaskFrameInPlace(f)
-		vAssert(g.Header.Masked, "helpers.inplace.header")
-		vAssert(vEqBytes(p, xor(orig, g.Header.Mask)), "helpers.inplace.xor")
-	case 4: // UnmaskFrame copies
-		g := UnmaskFrame(f)
-		vAssert(vEqBytes(p, orig), "helpers.unmask.caller_intact")
-		vAssert(vEqBytes(g.Payload, xor(orig, h.Mask)), "helpers.unmask.xor")
-		vAssert(vAnd(!g.Header.Masked, g.Header.Mask == [4]byte{}), "helpers.unmask.header")
-		vAssert(!vSameMem(g.Payload, p), "helpers.unmask.noalias")
-	case 5: // UnmaskFrameInPlace
-		g := UnmaskFrameInPlace(f)
-		vAssert(vEqBytes(p, xor(orig, h.Mask)), "helpers.unmaskinplace.xor")
-		vAssert(vAnd(!g.Header.Masked, g.Header.Mask == [4]byte{}), "helpers.unmaskinplace.header")
-	}
-}
